@@ -632,7 +632,7 @@ def gen_cases(tier, seed):
     rng = random.Random(seed * 193 + 7)
     cases = []
     names = ["retr_pasv", "stor_pasv", "mlsd", "walk", "two_transfers", "rename", "list"]
-    for i in range(240 if tier == "quick" else 3000):
+    for i in range(240 if tier == "quick" else 20000):
         cases.append({"kind": "server", "plan": {"seed": seed * 100003 + i, "lines": rng.choice([5, 20, 60]),
                                                  "bystander": names[i % len(names)] if i % 3 else None}})
     npar = 100000 if tier == "quick" else 5000000
@@ -641,7 +641,7 @@ def gen_cases(tier, seed):
         cases.append({"kind": "parsers", "plan": {"seed": seed * 7 + i, "n": per // 9}})
     plans = []
     targets = ["greet", "USER", "PWD", "EPSV", "PASV", "TYPE", "MLST", "226", "listing", "listing", "listing", "none"]
-    for i in range(600 if tier == "quick" else 10000):
+    for i in range(600 if tier == "quick" else 50000):
         plans.append({"seed": seed * 31 + i, "target": rng.choice(targets), "budget": rng.choice([3, 6, 12, 40]),
                       "passive": rng.choice(["epsv", "pasv"]),
                       "ops": [rng.choice(["pwd", "list", "list_recursive", "list_raw", "stat", "download"]) for _ in range(rng.randint(1, 4))]})
